@@ -573,29 +573,34 @@ def run(ctx):
     ctx.trusted = ["raw h5py reader of the harness (dataset -> kind, shape, entries; bytes decoded as utf-8)",
                    "the two matrix layouts handed to the model are the ones found in the file; their scipy "
                    "contract (well formed, content D / D^T, no stored zero) is checked by C04.holds on every file"]
-    os.makedirs(TMP, exist_ok=True)
+    widx, wcount = getattr(ctx, "worker", (0, 1))
+    tmp = os.path.join(TMP, str(os.getpid()))          # one directory per (worker) process
+    os.makedirs(tmp, exist_ok=True)
     try:
-        for case in CORPUS:
-            check_case(ctx, case)
-            ctx.count("corpus")
-        n = 560 if ctx.quick() else 12000
+        if widx == 0:
+            for case in CORPUS:
+                check_case(ctx, case, tmp)
+                ctx.count("corpus")
+        n = 560 if ctx.quick() else 12000 // wcount
         for _ in range(n):
-            check_case(ctx, gen_case(ctx.rng, ctx.quick()))
-        for _ in range(12 if ctx.quick() else 200):
+            check_case(ctx, gen_case(ctx.rng, ctx.quick()), tmp)
+        for _ in range(12 if ctx.quick() else 200 // wcount):
             case = gen_case(ctx.rng, ctx.quick(), empty_axes=False)
-            cli_case(ctx, case)
-        edge_stream(ctx)
+            cli_case(ctx, case, tmp)
+        if widx == 0:
+            edge_stream(ctx, tmp)
     finally:
-        shutil.rmtree(TMP, ignore_errors=True)
+        shutil.rmtree(tmp, ignore_errors=True)
 
 
 def replay(ctx, rec):
-    os.makedirs(TMP, exist_ok=True)
+    tmp = os.path.join(TMP, str(os.getpid()))
+    os.makedirs(tmp, exist_ok=True)
     try:
         case = rec["case"]["case"] if "case" in rec.get("case", {}) else rec["case"]
         if rec.get("case", {}).get("cli"):
-            cli_case(ctx, case)
+            cli_case(ctx, case, tmp)
         else:
-            check_case(ctx, case)
+            check_case(ctx, case, tmp)
     finally:
-        shutil.rmtree(TMP, ignore_errors=True)
+        shutil.rmtree(tmp, ignore_errors=True)
